@@ -38,6 +38,7 @@ ActionOf(st) ==
     [] st.op = "mapdelete"     -> MapDelete(st.id)
     [] st.op = "marshalcedar"  -> MarshalCedar(st.h)
     [] st.op = "jsonroundtrip" -> JsonRoundTrip(st.h, st.h2)
+    [] st.op = "badjson"       -> BadJson(st.h)
 
 \* recorded projection -> the model's projection (id lists that denote sets become sets)
 AzFromWire(a) == [decision |-> a.decision, reasons |-> SeqRange(a.reasons), errors |-> SeqRange(a.errors)]
